@@ -4,12 +4,14 @@ set -e
 cd /verif
 export CARGO_NET_OFFLINE=true
 [ -f harness/Cargo.lock ] || cp /repo/Cargo.lock harness/Cargo.lock
-(cd coq && coq_makefile -f _CoqProject -o Makefile >/dev/null && timeout 3000 make -j16) 
+python3 -c 'import sys; sys.path.insert(0,"/verif"); from vlib import core; core.coq_makefile()'
+(cd coq && timeout 3000 make -j16)
 python3 - <<'PY'
 import sys
 sys.path.insert(0, "/verif")
 from vlib import core
-for pkg in core.ALL_PACKAGES:
-    core.cargo_build(*pkg[:1], **(pkg[1] if len(pkg) > 1 else {}))
-    print("built", pkg[0])
+from checks import registry
+for pkg in registry.packages():
+    core.cargo_build(pkg[0], **(pkg[1] if len(pkg) > 1 else {}))
+    print("built", pkg[0], flush=True)
 PY
